@@ -48,6 +48,7 @@ type NetSpec struct {
 	Delete bool   `json:"delete,omitempty"` // push: :refs/heads/<branch>
 	Tag    string `json:"tag,omitempty"`    // push: refs/tags/<tag>:refs/tags/<tag>
 	ToTag  string `json:"to_tag,omitempty"` // fetch: refs/heads/<branch>:refs/tags/<to_tag> (a branch of the remote kept as a local tag)
+	DstNS  string `json:"dst_ns,omitempty"` // fetch: destination namespace other than remotes/origin: "heads" (refs/heads/<b>), "backup" (refs/remotes/backup/<b>), "mirror" (refs/mirror/<b>)
 }
 
 type NetPlan struct {
@@ -104,6 +105,36 @@ func genNetPlan(r *Rand, tier string, focus string, faults bool) NetPlan {
 			}
 			p.Ops = append(p.Ops, NetOp{Node: "L", Op: "fetch"},
 				NetOp{Node: "L", Op: "merge", Branch: b, Other: "origin/" + b, FF: Pick(r, []string{"", "ff", "ff-only"}), Form: Pick(r, netForms)})
+			continue
+		}
+		if focus == "C10" && r.Chance(0.08) {
+			// two remote branches end up on the same tip; one of the client's tracking refs is behind it,
+			// the other has diverged from it; one non-forced fetch covers both
+			bs := r.Perm(len(netBranches))
+			a, b := netBranches[bs[0]], netBranches[bs[1]]
+			cl := Pick(r, []string{"L", "L2"})
+			p.Ops = append(p.Ops, NetOp{Node: "R", Op: "commit", Branch: a, Variant: r.Intn(6)}, NetOp{Node: "R", Op: "commit", Branch: b, Variant: r.Intn(6)},
+				NetOp{Node: cl, Op: "fetch", Specs: []NetSpec{{Branch: a, Plus: true}, {Branch: b, Plus: true}}},
+				NetOp{Node: "R", Op: "commit", Branch: a, Variant: r.Intn(6)},
+				NetOp{Node: "R", Op: "rcopy", Branch: b, Other: a},
+				NetOp{Node: cl, Op: "fetch", Specs: []NetSpec{{Branch: a}, {Branch: b}}})
+			continue
+		}
+		if focus == "C10" && r.Chance(0.08) {
+			// a fetch whose destination lies outside remotes/origin and tags: a local branch, another
+			// remote's namespace, a mirror namespace; the destination exists and has diverged
+			b := Pick(r, netBranches)
+			ns := Pick(r, []string{"heads", "backup", "mirror"})
+			cl := Pick(r, []string{"L", "L2"})
+			p.Ops = append(p.Ops, NetOp{Node: "R", Op: "commit", Branch: b, Variant: r.Intn(6)},
+				NetOp{Node: cl, Op: "fetch", Specs: []NetSpec{{Branch: b, DstNS: ns}}})
+			if ns == "heads" {
+				p.Ops = append(p.Ops, NetOp{Node: cl, Op: "commit", Branch: b, Variant: r.Intn(6)}, NetOp{Node: "R", Op: "commit", Branch: b, Variant: r.Intn(6)})
+			} else {
+				other := netBranches[(indexOf(netBranches, b)+1)%len(netBranches)]
+				p.Ops = append(p.Ops, NetOp{Node: "R", Op: "commit", Branch: other, Variant: r.Intn(6)}, NetOp{Node: "R", Op: "rcopy", Branch: b, Other: other})
+			}
+			p.Ops = append(p.Ops, NetOp{Node: cl, Op: "fetch", Specs: []NetSpec{{Branch: b, DstNS: ns, Plus: r.Chance(0.2)}}})
 			continue
 		}
 		if focus == "C10" && r.Chance(0.1) {
@@ -251,6 +282,18 @@ func appendAllBlock(r *Rand, p *NetPlan, kinds []string) {
 		NetOp{Node: cl, Op: "pull", Branch: b, Upstream: true},
 		NetOp{Node: "R", Op: "commit", Branch: b, Variant: r.Intn(6)},
 		NetOp{Node: cl, Op: Pick(r, []string{"pullall", "pullall", "pushall"}), ReqFault: &NetFault{At: r.Range(1, 4), Kind: Pick(r, kinds), Arg: r.Range(0, 3000)}})
+}
+
+func dstOfSpec(sp NetSpec) string {
+	switch sp.DstNS {
+	case "heads":
+		return "heads/" + sp.Branch
+	case "backup":
+		return "remotes/backup/" + sp.Branch
+	case "mirror":
+		return "mirror/" + sp.Branch
+	}
+	return "remotes/origin/" + sp.Branch
 }
 
 func genSpecs(r *Rand) []NetSpec {
@@ -631,6 +674,19 @@ func execNet(t *testing.T, raw json.RawMessage, res *Result, focus string) {
 				res.probe("leftover_of_interrupted_transfer", 1)
 			}
 			continue
+		case "rcopy":
+			// a third party resets a branch of the remote to where another branch is (force push by someone else)
+			if op.Node != "R" || !validBranch {
+				res.Invalid("rcopy")
+				return
+			}
+			if db, err := R.OpenRef(); err == nil {
+				if h, err := ref.GetHead(db, op.Other); err == nil {
+					ref.CommitHead(db, op.Branch, h, &objects.Commit{AuthorName: "third", AuthorEmail: "third@x", Message: "reset"}, nil)
+				}
+				db.Close()
+			}
+			continue
 		case "rtag":
 			if op.Node != "R" {
 				res.Invalid("rtag on client")
@@ -665,6 +721,18 @@ func execNet(t *testing.T, raw json.RawMessage, res *Result, focus string) {
 						return
 					}
 					spec = fmt.Sprintf("refs/heads/%s:refs/remotes/origin/%s", sp.Branch, sp.Branch)
+					switch sp.DstNS {
+					case "":
+					case "heads":
+						spec = fmt.Sprintf("refs/heads/%s:refs/heads/%s", sp.Branch, sp.Branch)
+					case "backup":
+						spec = fmt.Sprintf("refs/heads/%s:refs/remotes/backup/%s", sp.Branch, sp.Branch)
+					case "mirror":
+						spec = fmt.Sprintf("refs/heads/%s:refs/mirror/%s", sp.Branch, sp.Branch)
+					default:
+						res.Invalid("dst_ns")
+						return
+					}
 					if sp.ToTag != "" {
 						// local-only tag names: remote tags (v1, v2) arriving through a tags refspec or by
 						// auto-following must not map onto the same destination as this refspec
@@ -921,11 +989,14 @@ func execNet(t *testing.T, raw json.RawMessage, res *Result, focus string) {
 					// explicit refspecs: only a '+' on the matching one forces
 					fetchConfForce = false
 					for _, sp := range op.Specs {
-						if sp.Plus && !sp.Tags && sp.ToTag == "" && tr.Name == "remotes/origin/"+sp.Branch {
+						if sp.Plus && !sp.Tags && sp.ToTag == "" && sp.DstNS == "" && tr.Name == "remotes/origin/"+sp.Branch {
 							fetchConfForce = true
 						}
 						if sp.Plus && sp.ToTag != "" && tr.Name == "tags/"+sp.ToTag {
 							tagForce = true
+						}
+						if sp.Plus && sp.ToTag == "" && sp.DstNS != "" && tr.Name == dstOfSpec(sp) {
+							fetchConfForce = true
 						}
 						if sp.Plus && sp.Tags && isTag {
 							tagForce = true
@@ -1234,4 +1305,13 @@ func shallowOf(objs *Store) map[string]bool {
 		}
 	}
 	return m
+}
+
+func indexOf(xs []string, x string) int {
+	for i, y := range xs {
+		if y == x {
+			return i
+		}
+	}
+	return 0
 }
